@@ -157,7 +157,11 @@ pub fn run(cfg: &RunCfg, stats: &mut Stats, exhaustive: &mut bool, extra: &mut V
             Outcome::Pass => run_walks(cfg, stats, 1),
             other => other,
         },
-        "C15" => run_c15(cfg, stats),
+        "C15" => match run_c15(cfg, stats) {
+            Outcome::Pass => run_call_sites(cfg, stats),
+            other => other,
+        },
+        "C19" => run_call_sites(cfg, stats),
         "C16" => run_c16(cfg, stats, exhaustive, extra),
         "C17" => run_c17(cfg, stats, exhaustive, extra),
         "C18" => crate::conc::run_c18(cfg, stats, extra),
@@ -217,6 +221,11 @@ pub fn replay(id: &str, v: &Value) -> Result<Option<Fail>, String> {
                 }
                 _ => Err("bad start".into()),
             }
+        }
+        (_, "call_site") => {
+            let start = crate::drive::start_from_json(&v["start"])?;
+            let actions: Vec<arimaa_engine_step::Action> = v["actions"].as_array().ok_or("actions")?.iter().filter_map(|x| x.as_str()).map(crate::drive::parse_action_text).collect::<Result<_, _>>()?;
+            Ok(call_site_check(id, &start, &actions, &mut st).err())
         }
         ("C18", _) => crate::conc::replay_c18(v),
         ("C20", _) => crate::longgame::replay_c20(v),
@@ -603,6 +612,104 @@ fn run_c10_parsed(cfg: &RunCfg, stats: &mut Stats) -> Outcome {
     out
 }
 
+
+// =====================================================================================
+// C15 / C19 from an unusual call site: the queries of a reached state are asked from the destructor of a
+// thread-local while its thread exits (where a client's per-thread log, cache or statistics object
+// flushes itself), after the same queries have been asked normally on that thread.
+// =====================================================================================
+
+fn end_of(start: &gen::Start, actions: &[arimaa_engine_step::Action]) -> Result<(GameState, Model), String> {
+    let (mut eng, mut mo) = crate::drive::start_states(start)?;
+    for a in actions {
+        let n = guard(|| eng.take_action(a)).map_err(|p| format!("take_action panicked: {}", p))?;
+        mo.apply(to_maction(a))?;
+        eng = n;
+    }
+    Ok((eng, mo))
+}
+
+pub fn call_site_check(id: &str, start: &gen::Start, actions: &[arimaa_engine_step::Action], st: &mut Stats) -> Check {
+    let (eng, mo) = match end_of(start, actions) {
+        Ok(x) => x,
+        Err(_) => {
+            st.bump("call_site_case_not_built");
+            return Ok(());
+        }
+    };
+    let mk = registry::observer_for(id).ok_or_else(|| Fail::new("harness", "no observer".into()))?;
+    let (e1, m1, e2, m2) = (eng.clone(), mo.clone(), eng.clone(), mo.clone());
+    let r = in_tls_destructor(
+        move || {
+            let mut obs = mk();
+            let mut s = Stats::default();
+            let _ = obs.on_state(&crate::drive::View::new(&e1, &m1, true), &mut s);
+        },
+        move || {
+            let mut obs = mk();
+            let mut s = Stats::default();
+            guard(|| obs.on_state(&crate::drive::View::new(&e2, &m2, true), &mut s))
+        },
+    );
+    st.eval();
+    match r {
+        Some(Ok(Ok(()))) => {
+            st.bump("states_observed_from_a_thread_local_destructor");
+            st.nontrivial(fp_combine(mo.fingerprint(), 0x715));
+            Ok(())
+        }
+        Some(Ok(Err(f))) => Err(Fail::new(&f.clause, format!("(asked from the destructor of a thread-local while the thread exits, after the same queries had been asked normally on that thread) {}", f.detail))),
+        Some(Err(p)) => Err(Fail::new(&format!("{}:panic", id), format!("observing the state from a thread-local destructor panicked: {}", p))),
+        None => {
+            st.bump("thread_local_destructor_probe_did_not_run");
+            Ok(())
+        }
+    }
+}
+
+fn run_call_sites(cfg: &RunCfg, stats: &mut Stats) -> Outcome {
+    let cases = if cfg.thorough { 400 } else { 40 };
+    let seed = cfg.seed;
+    let id = cfg.id.clone();
+    let id2 = cfg.id.clone();
+    let params = gen::GameParams { max_ops: 30, w_setup: 1, w_pos: 6, w_small: 3, w_frozen: 1, hanging: false, w_motif: 1, w_open: 0 };
+    let mut s = Stats::default();
+    let out = sharded(
+        cfg,
+        40,
+        cases,
+        || gen::game(params),
+        move |c: &gen::Case, st: &mut Stats| {
+            struct Nop;
+            impl crate::drive::Obs for Nop {}
+            let opts = crate::drive::WalkOpts { profile: crate::drive::Profile::Fight, expand: None, follow_norep: false, inject: crate::drive::Inject::No, interfere: false, play_on: false };
+            let mut scratch = Stats::default();
+            let actions = match crate::drive::run_case(c, &opts, &mut Nop, &mut scratch) {
+                Ok((_, t)) => t.actions,
+                Err(_) => return Ok(()),
+            };
+            call_site_check(&id, &c.start, &actions, st)
+        },
+        move |c, f, shard| {
+            struct Nop;
+            impl crate::drive::Obs for Nop {}
+            let opts = crate::drive::WalkOpts { profile: crate::drive::Profile::Fight, expand: None, follow_norep: false, inject: crate::drive::Inject::No, interfere: false, play_on: false };
+            let mut scratch = Stats::default();
+            let actions = crate::drive::run_case(c, &opts, &mut Nop, &mut scratch).map(|x| x.1.actions).unwrap_or_default();
+            json!({"property": id2, "kind": "call_site", "clause": f.clause, "detail": f.detail, "start": crate::drive::start_json(&c.start), "actions": actions.iter().map(action_text).collect::<Vec<_>>(), "seed": seed, "shard": shard})
+        },
+        |c| json!({"start": crate::drive::start_json(&c.start), "ops": c.ops.len()}),
+        &mut s,
+    );
+    let mut pref = Stats::default();
+    pref.evaluations = s.evaluations;
+    pref.nontrivial = s.nontrivial;
+    for (k, v) in s.counters {
+        pref.counters.insert(format!("call_site/{}", k), v);
+    }
+    stats.merge(pref);
+    out
+}
 
 // =====================================================================================
 // C09: setup states whose position hashes agree in their low or high 32 bits, asked one right after
